@@ -151,7 +151,7 @@ func (c16) Gen(seed uint64, run int, tier string) *core.Case {
 		n := 4 + r.IntN(14)
 		for i := 0; i < n; i++ {
 			st := c16Step{Setting: c16Settings[r.IntN(len(c16Settings))], Doc: r.IntN(1000), GW: r.IntN(cfg.Instances)}
-			x := r.IntN(10)
+			x := r.IntN(12)
 			switch {
 			case x < 5:
 				st.Kind = "put"
@@ -159,8 +159,12 @@ func (c16) Gen(seed uint64, run int, tier string) *core.Case {
 				st.Kind = "get"
 			case x < 9:
 				st.Kind = "delete"
-			default:
+			case x < 10:
 				st.Kind = "restart"
+			case x < 11:
+				st.Kind = "objput" // object traffic in the bucket, with keys that look like the stores' own names
+			default:
+				st.Kind = "objdel"
 			}
 			p.Steps = append(p.Steps, st)
 		}
@@ -473,9 +477,19 @@ func (c16) Exec(c *core.Case) (out *core.Outcome) {
 			if cl.GW >= len(e.GWs) {
 				cl.GW = 0
 			}
+			objKey := []string{"meta", "acl", "meta/acl", "policy", "obj", "meta/"}[st.Doc%6]
 			switch st.Kind {
 			case "restart":
 				e.Restart(cl.GW)
+			case "objput":
+				var body []byte
+				if !strings.HasSuffix(objKey, "/") {
+					body = []byte("object data " + objKey)
+				}
+				cl.Do(s3c.PutObject(b, objKey, body))
+				o.Probe("object_traffic_between_settings")
+			case "objdel":
+				cl.Do(s3c.DeleteObject(b, objKey))
 			case "put":
 				body, hdrs, want := c16Doc(st.Setting, st.Doc, "own16")
 				if st.Setting == "acl" && current["ownershipControls"] == "BucketOwnerEnforced" {
